@@ -1,0 +1,54 @@
+//go:build verif
+
+package transport_controller
+
+import (
+	"sync/atomic"
+
+	"github.com/aperturerobotics/bifrost/link"
+	"github.com/aperturerobotics/bifrost/peer"
+)
+
+// VerifLinkDialer is a snapshot of one link dialer: its key and the link held by its container.
+type VerifLinkDialer struct {
+	// PeerID and Addr are the key.
+	PeerID peer.ID
+	Addr   string
+	// Link is the current value of the lnk container (nil if empty).
+	Link link.Link
+}
+
+// VerifLinkDialers returns the link dialers currently registered (keys with at least one
+// reference) with the value of their lnk container.
+func (c *Controller) VerifLinkDialers() []VerifLinkDialer {
+	var out []VerifLinkDialer
+	for _, kd := range c.linkDialers.GetKeysWithData() {
+		out = append(out, VerifLinkDialer{
+			PeerID: kd.Key.peerID,
+			Addr:   kd.Key.dialAddress,
+			Link:   kd.Data.lnk.GetValue(),
+		})
+	}
+	return out
+}
+
+// verifLinkDialerGateFn is the gate callback installed by the verification harness.
+var verifLinkDialerGateFn atomic.Pointer[func(c *Controller, peerID peer.ID, addr string, lnk link.Link)]
+
+// VerifSetLinkDialerStoreGate installs fn (nil to remove). fn is called synchronously by the
+// link dialer routine of key (peerID, addr) after dialer.Execute returned lnk without error and
+// before the link is stored in the lnk container; it may block to force a schedule.
+func VerifSetLinkDialerStoreGate(fn func(c *Controller, peerID peer.ID, addr string, lnk link.Link)) {
+	if fn == nil {
+		verifLinkDialerGateFn.Store(nil)
+		return
+	}
+	verifLinkDialerGateFn.Store(&fn)
+}
+
+// verifLinkDialerStore is called before a link dialer stores the link it dialed.
+func verifLinkDialerStore(c *Controller, peerID peer.ID, addr string, lnk link.Link) {
+	if fn := verifLinkDialerGateFn.Load(); fn != nil {
+		(*fn)(c, peerID, addr, lnk)
+	}
+}
